@@ -150,25 +150,6 @@ theorem textRows_flatten {α} (c : Codec α) (f : OField α) (V : Valid f) (e : 
       simp [tab, writeDim, h1]
     · simp [textRows, tab, h1, hcount]
 
-theorem readText_uniform {α} (rows : List (List α)) (m vd : Nat) (hm : 0 < m) (hlen : rows.length = m)
-    (hu : ∀ r ∈ rows, r.length = vd) : readText rows m vd = .ok rows.flatten := by
-  unfold readText
-  have ht : rows.take m = rows := List.take_of_length_le (by omega)
-  rw [ht]
-  cases rows with
-  | nil => simp at hlen; omega
-  | cons r rs =>
-    have hr : r.length = vd := hu r (by simp)
-    have hall : ((r :: rs).all fun x => x.length == ((r :: rs).headD []).length) = true := by
-      rw [List.all_eq_true]
-      intro x hx
-      simp [hu x hx, hr]
-    have hne : ¬ (vd = vd + 1) := by omega
-    simp only [List.isEmpty_cons, Bool.false_eq_true, if_false, List.headD_cons, hr, hne]
-    rw [List.all_eq_true.mpr (fun x hx => by simp [hu x hx])]
-    rfl
-
-
 theorem writeDim_e {α} (f : OField α) (e : Bool) (he : e = true → f.nvdim = 1) :
     writeDim f e = if e then 3 else f.nvdim := by
   cases e with
@@ -296,7 +277,7 @@ theorem written_parse {α} [DecidableEq α] (c : Codec α) (narrow : α → α) 
         (f.mesh.region.units.getD 0 "") (headerOf_written f e labels) V.lt V.npos (fun a _ => rfl)
         ["Text"] (by decide +kernel) rfl (scan_written f e labels _)
         (writeDim f e) (valueDim_written f e labels) _ _ rfl _
-        (by rw [readText_uniform _ _ _ hnpos hlen huni, hflat])
+        (by rw [readText_uniform _ _ _ _ hnpos hlen hwd huni, hflat])
     · rw [hid, ← hflat]
       exact refReader_written_txt c f e labels _ _ (by rw [hflat]; exact hcount)
   · have hw : w = 4 ∨ w = 8 := by rcases hbin with ⟨_, h⟩ | ⟨_, h⟩ <;> simp [h]
